@@ -110,6 +110,34 @@ SCHEDULES = [
 ]
 
 
+def schedules_for(seed) -> list:
+    """The schedules of one generated project (seeded, so that a replay rebuilds them): the -j1
+    reference, three runs whose job count (2, 3, 4, 8), size of the resource pool (1-3 tokens; steps
+    may demand one), and relative step durations (which waiting command is released first at its start
+    and end gates: seeded shuffle / lifo / fifo / sorted) are drawn per project, and a run with a
+    one-token pool.  `describe(kw)` is what the evidence counts."""
+    rng = random.Random(f"c02-sched-{seed}")
+    out = [("j1", dict(njob=1, resources="tok:2"))]
+    for k, name in enumerate(("a", "b", "c")):
+        nj = rng.choice([2, 3, 4, 8])
+        tok = rng.choice([1, 2, 2, 3])
+        pol = rng.choice(["seed", "seed", "lifo", "fifo", "sorted"])
+        sch = {"seed": 11 * (k + 1), "points": ["start", "end"]}
+        if pol != "seed":
+            sch["policy"] = pol
+        out.append((f"j{nj}-{name}", dict(njob=nj, resources=f"tok:{tok}", schedule=sch)))
+    out.append(("res", dict(njob=rng.choice([2, 4]), resources="tok:1",
+                            schedule={"seed": 44, "points": ["end"]})))
+    return out
+
+
+def describe(kw: dict) -> str:
+    sch = kw.get("schedule") or {}
+    pol = sch.get("policy", "seed" if "seed" in sch else ("order" if "order" in sch else "none"))
+    return (f"jobs={kw.get('njob', 1)}:pool={kw.get('resources', '-')}:durations={pol}"
+            f":gates={'+'.join(sch.get('points', [])) or '-'}")
+
+
 def _summary(r: e3.BuildResult) -> dict:
     return {"rc": r.returncode, "cls": e3.rc_class(r.returncode),
             "graph": e3.canon_graph(r.graph, digests=False) if r.graph else None,
@@ -191,8 +219,11 @@ def run_case(item):
         from . import e3_gen
         project, _history = e3_gen.gen_case(seed, max_phases=1)
         meta = {}
+    scheds = schedules_for(seed)
+    meta["resource_steps"] = sum(1 for acts in project.program["scripts"].values() for a in acts
+                                 if isinstance(a, dict) and a.get("resources"))
     try:
-        res = run_schedules(project, seed_shift=shift)
+        res = run_schedules(project, schedules=scheds, seed_shift=shift)
     except Exception as e:  # noqa: BLE001 - reported by the caller
         return {"item": item, "meta": meta, "crash": f"{type(e).__name__}: {e}", "project": project.to_json()}
     two_party = [c for c in meta.get("conflicts", []) if c[0] != "undeclared"]
@@ -200,6 +231,8 @@ def run_case(item):
     return {"item": item, "meta": meta, "cls": res["j1"]["cls"],
             "nrej": len(res["j1"]["rejected"]), "diffs": diffs,
             "max_running": max(r["max_running"] or 0 for r in res.values()),
+            "settings": [describe(kw) for _, kw in scheds],
+            "running_by_schedule": {n: res[n]["max_running"] for n, _ in scheds},
             "project": project.to_json() if diffs else None}
 
 
